@@ -35,6 +35,7 @@ def main(argv=None):
     parser.add_argument("--jobs", type=int, default=core.jobs_default())
     parser.add_argument("--replay")
     parser.add_argument("--no-evidence", action="store_true")
+    parser.add_argument("--json", action="store_true", help=argparse.SUPPRESS)
     args = parser.parse_args(argv)
     prop = args.prop.upper()
 
@@ -47,9 +48,11 @@ def main(argv=None):
         return 2
 
     if args.replay:
-        return _replay(module, prop, args.replay)
+        return _replay(module, prop, args.replay, args.json)
 
     ctx = core.Ctx(args.tier, args.seed, args.jobs)
+    # listed known findings never trigger the fail-fast stop (they are expected on this tree)
+    core.KNOWN_KEYS.update(key for (pid, key) in findings.load() if pid == prop)
     t_0 = time.time()
     try:
         result = module.run(ctx)
@@ -65,6 +68,7 @@ def main(argv=None):
 
     known = findings.load()
     new, listed = [], []
+    os.makedirs(REPLAY_DIR, exist_ok=True)
     # simplest counterexample first: fewest environment deviations / shortest case
     part.violations.sort(key=lambda v: (len(v["case"].get("vector", ())) if
                                         isinstance(v["case"], dict) else 0,
@@ -81,9 +85,19 @@ def main(argv=None):
             print(f"HARNESS-ERROR: replay of {viol['key']} crashed")
             return 2
         if not again[0] or again[0] != again[1]:
-            print(f"HARNESS-ERROR: violation {viol['key']} did not reproduce identically "
-                  f"({again[0]!r} vs {again[1]!r}); msg was {viol['msg']!r}")
-            return 2
+            # The in-process replay disagrees with the exploration: either the harness does not
+            # own some nondeterminism, or the code under test keeps state across calls/objects
+            # (a mutated class attribute, a module-level buffer).  Decide by replaying the
+            # recorded case in two *fresh* interpreters: identical non-empty results are a
+            # deterministic, self-contained violation; anything else is a harness error.
+            fresh = [_fresh_replay(prop, viol["case"]) for _ in range(2)]
+            if not fresh[0] or fresh[0] != fresh[1]:
+                print(f"HARNESS-ERROR: violation {viol['key']} did not reproduce identically "
+                      f"(in-process {again[0]!r} vs {again[1]!r}; fresh processes {fresh[0]!r} vs "
+                      f"{fresh[1]!r}); msg was {viol['msg']!r}")
+                return 2
+            viol["msg"] = fresh[0][0] + "  [state carried between calls: reproduced from a " \
+                                        "fresh interpreter]"
         if (prop, viol["key"]) in known:
             listed.append(viol)
         else:
@@ -123,10 +137,32 @@ def main(argv=None):
     return 1 if new else 0
 
 
-def _replay(module, prop, path):
+def _fresh_replay(prop, case):
+    """Replay one case in a new interpreter; returns the list of violation messages (or None)."""
+    import subprocess                                   # pylint: disable=import-outside-toplevel
+    import tempfile                                     # pylint: disable=import-outside-toplevel
+    with tempfile.NamedTemporaryFile("w", suffix=".json", dir=REPLAY_DIR, delete=False) as handle:
+        json.dump({"property_id": prop, "key": "confirm", "case": case}, handle, default=repr)
+        path = handle.name
+    try:
+        proc = subprocess.run([sys.executable, "-B", "-m", "mc.run", prop, "--replay", path,
+                               "--json"], cwd=VERIF_ROOT, capture_output=True, text=True,
+                              timeout=600, check=False)
+        for line in proc.stdout.splitlines():
+            if line.startswith("REPLAY-JSON "):
+                return json.loads(line[len("REPLAY-JSON "):])
+        return None
+    finally:
+        os.remove(path)
+
+
+def _replay(module, prop, path, as_json=False):
     with open(path, encoding="utf-8") as handle:
         doc = json.load(handle)
     msgs = module.replay(doc["case"])
+    if as_json:
+        print("REPLAY-JSON " + json.dumps([str(m) for m in msgs]))
+        return 1 if msgs else 0
     if msgs:
         print(f"VIOLATION property={prop} replay={path}")
         for msg in msgs[:5]:
